@@ -1137,8 +1137,16 @@ func c20Mutations(e *Env, r *RNG, p *N, id string, n int) {
 		}
 		e.R.H("mutation", m.Op)
 		e.R.H("mutated_token", c20_tokClass(string(toks[m.I].Type)))
-		srcs = append(srcs, c20MutApply(runes, toks, m))
+		ms := c20MutApply(runes, toks, m)
+		srcs = append(srcs, ms)
 		labels = append(labels, fmt.Sprintf("%s token #%d (%s) %q of %s", m.Op, m.I, toks[m.I].Type, m.Text, id))
+		// the same faulty text with CRLF line ends: a diagnostic must still name the line and
+		// column of the text as an editor counts them (one line per CRLF)
+		if strings.Contains(ms, "\n") && !strings.Contains(ms, "\r") && r.Chance(40) {
+			e.R.H("mutation", "crlf twin")
+			srcs = append(srcs, strings.ReplaceAll(ms, "\n", "\r\n"))
+			labels = append(labels, "CRLF twin of: "+labels[len(labels)-1])
+		}
 	}
 	agree := c20LexCheck(e, srcs, "mutated program")
 	for i, s := range srcs {
